@@ -7,7 +7,7 @@ from mireval import Evaluator, Unsupported, fmt_term, mk_int, term_type
 from models import Models, apply_closure
 from facts import loc
 from p_msgmap import norm, norm_cons, known_val
-from common import VERIF
+from common import VERIF, at_log_levels
 import a3
 
 FRAME = "flipdot_core::frame::Frame"
@@ -424,6 +424,7 @@ def frame_binding(cx, fr, cap):
 
 
 # =============================================================================================
+@at_log_levels("flipdot_core")
 def run_c02(chk, prog):
     chk.notes.append("Decides that Frame::from_bytes returns Ok iff the input is in L = { documented shape AND declared length == number of data pairs AND LRC matches }: (O1) the regex's language equals the "
                      "documented shape exactly (A6, DFA product); (O2) every path to Ok passes the equality edges of both checks, computed over the parsed fields (A2 must-pass); (O3) the LRC covers "
@@ -442,6 +443,7 @@ def run_c02(chk, prog):
     chk.note_analysed("functions", [cx.from_bytes["name"], cx.payload["name"], cx.find_checksum()["name"]])
 
 
+@at_log_levels("flipdot_core")
 def run_c03(chk, prog):
     chk.notes.append("(O1) strictness: regex language equality (A6); (O2) totality: every unwrap on the decoder's paths is discharged by a lemma from the regex's group layout (A4/D3), the Data length "
                      "error is unreachable, no other panic site; (O3) rejection classes, their precedence and payloads (A2 order rules); (O4) re-encoding is C01's.")
@@ -786,6 +788,14 @@ def to_bytes_rules(chk, cx, rule):
         okt = out_t is not None and pay_t is not None and len(targets) == 2 and len(targets[pay_t]) == 1
         if not okt:
             # not the push-loop shape: judge the returned value itself (iterator pipelines, loop summaries)
+            it_all = norm(("iter", "slice", ("seq", (("splice", P), ("elem", C)))))
+            no_iter = any(norm(t) == ("app", "has_next", (it_all, mk_int(0, "usize"))) and val == 0 for (t, val, w) in p.decisions)
+            if no_iter and norm(p.value) == ("seq", (("elem", mk_int(0x3A, "u8")),)):
+                # the exit of the digit loop before its first iteration (payload ++ [checksum] is never empty): ':' and nothing else,
+                # which is what the loop's summary on the other paths gives for zero bytes
+                chk.ob(rule, "to_bytes returns ':' alone on the loop's zero-iteration exit", True, where=where)
+                n_value += 1
+                continue
             okv, whyv = to_bytes_value(p.value, P, C)
             chk.ob(rule, "to_bytes returns ':' followed, for each byte b of payload ++ [checksum] in order, by HEX[b >> 4], HEX[b & 15] from the table \"0123456789ABCDEF\"", okv,
                    key="to_bytes:value", where=where, detail=whyv)
@@ -982,6 +992,7 @@ def data_typestate(chk, cx, rule):
     chk.ob(rule, "no unsafe code in the workspace", not prog.unsafe_sites, key="unsafe", detail=str(prog.unsafe_sites[:2]))
 
 
+@at_log_levels("flipdot_core")
 def run_c01(chk, prog):
     chk.notes.append("Decides three structural clauses; the round trip follows by lemma L1: (O1) Data <= 255 typestate (A5 + guard dominance); (O2-O4) the encoder emits ':' then, for each byte of "
                      "[len, addr_hi, addr_lo, type, data.., -sum], its high and low nibble through the upper-case table, optionally followed by CRLF (A3 bit provenance / affine mod 256); "
